@@ -19,6 +19,7 @@ import (
 	"sort"
 	"strings"
 	"sync"
+	"sync/atomic"
 	"time"
 
 	"github.com/zmap/zcrypto/x509"
@@ -79,6 +80,8 @@ const lintTimeout = 20 * time.Second
 
 const hangMarker = "HANG: no result after "
 
+var hangCount int32 // after three hangs the watchdog shortens: the abandoned goroutines already keep cores busy
+
 // lintObj runs the top-level entry point; a panic reaching the caller is reported, and so is a call that does not return.
 func lintObj(o *Obj, reg lint.Registry) (rs *zlint.ResultSet, panicMsg string) {
 	type answer struct {
@@ -107,11 +110,16 @@ func lintObj(o *Obj, reg lint.Registry) (rs *zlint.ResultSet, panicMsg string) {
 			a.rs = zlint.LintOcspResponseEx(o.OCSP, reg)
 		}
 	}()
+	to := lintTimeout
+	if atomic.LoadInt32(&hangCount) >= 3 {
+		to = 3 * time.Second
+	}
 	select {
 	case a := <-ch:
 		return a.rs, a.p
-	case <-time.After(lintTimeout):
-		return nil, hangMarker + lintTimeout.String()
+	case <-time.After(to):
+		atomic.AddInt32(&hangCount, 1)
+		return nil, hangMarker + to.String()
 	}
 }
 
